@@ -128,7 +128,7 @@ func ruleC18T2(r *Run) {
 	if len(writers) != 1 {
 		return
 	}
-	w := writers[0]
+	w := goRootOf(p, writers[0]) // the writing code may sit in a helper called only from the loop that go starts
 	gos := 0
 	for _, s := range p.staticCallSites(w) {
 		if _, isGo := s.(*ssa.Go); isGo && !inLoop(s) {
@@ -152,6 +152,7 @@ func ruleC18T3T4(r *Run) {
 	// T3
 	{
 		name := fnName(wl)
+		wl := loopWithRedial(p, wl, rec) // the retry body may have been moved into a helper of the loop
 		var recCall *ssa.Call
 		var write ssa.Instruction
 		allInstrs(wl, func(ins ssa.Instruction) {
@@ -196,6 +197,7 @@ func ruleC18T3T4(r *Run) {
 	r.Begin("T4", "failed redial cancels: in the write loop and the read loop, every return reachable from the failure edge of reconnect() passes a call of the transport's cancel function or of its Close", 2)
 	for _, fn := range []*ssa.Function{wl, rl} {
 		name := fnName(fn)
+		fn = loopWithRedial(p, fn, rec)
 		var recCall *ssa.Call
 		allInstrs(fn, func(ins ssa.Instruction) {
 			if c, ok := ins.(*ssa.Call); ok && c.Call.StaticCallee() == rec {
@@ -552,4 +554,52 @@ func ruleC18T11(r *Run) {
 	if k == 0 {
 		r.Check(name+" quiet exits", true, p.pos(fn.Pos()), name, "no errors.Is test lets the read loop end without a redial")
 	}
+}
+
+// goRootOf climbs from fn through its static callers while there is exactly one call site that is a plain call;
+// it returns the function that is started with go (or fn itself when fn is).
+func goRootOf(p *Prog, fn *ssa.Function) *ssa.Function {
+	for depth := 0; depth < 4; depth++ {
+		sites := p.staticCallSites(fn)
+		if len(sites) != 1 {
+			return fn
+		}
+		if _, isGo := sites[0].(*ssa.Go); isGo {
+			return fn
+		}
+		if _, isCall := sites[0].(*ssa.Call); !isCall {
+			return fn
+		}
+		fn = sites[0].Parent()
+	}
+	return fn
+}
+
+// loopWithRedial returns the function that contains the reconnect call belonging to the named loop: the loop itself,
+// or the helper into which its retry body was moved (a function called only from that loop).
+func loopWithRedial(p *Prog, loop, rc *ssa.Function) *ssa.Function {
+	has := func(f *ssa.Function) bool {
+		found := false
+		allInstrs(f, func(ins ssa.Instruction) {
+			if c, ok := ins.(*ssa.Call); ok && c.Call.StaticCallee() == rc {
+				found = true
+			}
+		})
+		return found
+	}
+	if has(loop) {
+		return loop
+	}
+	var out *ssa.Function
+	allInstrs(loop, func(ins ssa.Instruction) {
+		if c, ok := ins.(*ssa.Call); ok {
+			if cf := c.Call.StaticCallee(); cf != nil && p.Analysed(cf) && has(cf) && len(p.staticCallSites(cf)) == 1 {
+				out = cf
+			}
+		}
+	})
+	if out != nil {
+		return out
+	}
+	return loop
 }
